@@ -720,9 +720,11 @@ def gen_items(rng, allow_async=True, allow_raise=True, maxrows=12):
     return items, asynchronous
 
 
-def random_walk(rng, d: Driver, nsteps, faults=True, kills=True, auth_variants=True, pauses=False):
+def random_walk(rng, d: Driver, nsteps, faults=True, kills=True, auth_variants=True, pauses=False, app_failures=None):
     """Drive `d` with events that are meaningful at the current blocking point (plus always-possible ones)."""
     last_app = None
+    if app_failures is None:
+        app_failures = faults      # init / reset / use / close raising (an application failure, not a transport fault)
     for _ in range(nsteps):
         b = d.blocked()
         if b in ("done", "unknown"):
@@ -784,7 +786,7 @@ def random_walk(rng, d: Driver, nsteps, faults=True, kills=True, auth_variants=T
                     items, asyn = gen_items(rng)
                     d.app_result("set", ncols=rng.choice([1, 1, 2, 3]), items=items, asynchronous=asyn)
             else:
-                if faults and rng.random() < 0.1:
+                if app_failures and rng.random() < 0.1:
                     d.app_result("raise", raise_code=rng.choice([None, 1064]))
                 else:
                     d.app_result("void")
